@@ -27,7 +27,8 @@ def sh(cmd, cwd=None, env=None, timeout=3000):
 ROOT = os.environ.get("SEED_ROOT", "/tmp/seed")
 # round 2 (SEED_ROOT=/tmp/seed2): the agents' A/B are stored as C/D
 RENAME = ({"A": "C", "B": "D"} if ROOT.rstrip("/").endswith("seed2") else
-          {"A": "E", "B": "F"} if ROOT.rstrip("/").endswith("seed3") else {"A": "A", "B": "B", "C": "C", "D": "D"})
+          {"A": "E", "B": "F"} if ROOT.rstrip("/").endswith("seed3") else
+          {"A": "G", "B": "H"} if ROOT.rstrip("/").endswith("seed4") else {"A": "A", "B": "B", "C": "C", "D": "D"})
 
 
 def confirm(pid, x):
